@@ -115,6 +115,25 @@ class Scenario:
             W.blackout = W.send_error = bool(arg)
         elif action == "rferr":
             self.sim._do_rferr = bool(arg)
+        elif action == "slowhs":
+            # pings never get through; of every handshake / query verb only each (k+1)-th request does (the handshake creeps along)
+            k = max(1, int(arg or 8))
+            counts = {}
+
+            def flt(data):
+                i = data.find(b"<DATAS>")
+                verb = bytes(data[i + 7:i + 12]) if i >= 0 else b""
+                if verb == b"APING":
+                    return "drop"
+                if verb in (b"AVERS", b"CURCH", b"SFILE", b"STATU"):
+                    counts[verb] = counts.get(verb, 0) + 1
+                    return None if counts[verb] % (k + 1) == 0 else "drop"
+                return None
+            W.c2s_filter = flt
+        elif action == "noping":
+            # pings never get through, everything else suffers the cyclic loss pattern `arg`
+            W.c2s_filter = (lambda data: "drop" if b"<DATAS>APING" in data else None)
+            self.apply("lossy", arg)
         elif action == "lossy":
             # arg: pattern of 0/1 (1 = drop) applied cyclically to every datagram, both ways
             pat = list(arg or [])
@@ -123,6 +142,7 @@ class Scenario:
             W.c2s_tape, W.s2c_tape = [], []
         elif action == "healthy":
             W.blackout = W.send_error = False
+            W.c2s_filter = None
             self.sim._do_rferr = False
             W.c2s_cycle = W.s2c_cycle = None
             W.c2s_tape, W.s2c_tape = [], []
@@ -160,6 +180,11 @@ def run_scenario(case, *, recover_bound, mirror_wait=0.0, detect_bound=None, on_
             rec["man"] = man
             man.suspend = list(case.get("suspend", []))
             man.suspend_map = dict(case.get("suspend_map", {}))
+            if case.get("mode") == "active":
+                # the process-wide timing table was left on "active" by whatever ran before (it survives reconnects)
+                from geckolib.config import set_config_mode
+                await asyncio.sleep(0)
+                set_config_mode(True)
             t0 = W.clock.t
             rec["t0"] = t0
             actions = [(float(t), a) for t, a in case.get("actions", [])]
@@ -174,7 +199,7 @@ def run_scenario(case, *, recover_bound, mirror_wait=0.0, detect_bound=None, on_
                 # Known dead end (known_findings.json, C09): ERROR_SPA_NOT_FOUND is never left.  So that the search goes on behind it,
                 # the harness does what a user would: once the state has persisted for 25 s on a fault-free network (two discovery
                 # runs would have found the spa) it presses "reconnect"; every such escape is reported as that known finding.
-                faultless = not (W.blackout or sim._do_rferr or W.c2s_cycle or W.s2c_cycle)
+                faultless = not (W.blackout or sim._do_rferr or W.c2s_cycle or W.s2c_cycle or W.c2s_filter)
                 if man.spa_state == GeckoSpaState.ERROR_SPA_NOT_FOUND and faultless:
                     if nf_since is None:
                         nf_since = W.clock.t
@@ -195,6 +220,15 @@ def run_scenario(case, *, recover_bound, mirror_wait=0.0, detect_bound=None, on_
                         await man.async_reset()
                     elif a == "setinfo":
                         await man.async_set_spa_info(peer.addr[0], SPA_ID_STR, "Spa")
+                    elif a == "socklost":
+                        # the event loop reports the connection's socket as lost (fatal OS error on the endpoint)
+                        spa_ = man._spa
+                        tr_ = getattr(spa_, "_transport", None)
+                        if tr_ is not None and not tr_.closed:
+                            tr_.closed = True
+                            tr_.closed_at = W.clock.t
+                            tr_.protocol.connection_lost(OSError(100, "Network is down"))
+                            rec["socklost"] = rec.get("socklost", 0) + 1
                     else:
                         raise InvalidCase(a)
                 if detect_bound is not None:
@@ -206,8 +240,9 @@ def run_scenario(case, *, recover_bound, mirror_wait=0.0, detect_bound=None, on_
                     else:
                         blackout_since = None
 
+            rec["clear"] = []   # [t_start, t_end] intervals in which the network was fault-free
             for kind, dur, arg in case["phases"]:
-                if kind not in ("healthy", "blackout", "rferr", "lossy", "neterr"):
+                if kind not in ("healthy", "blackout", "rferr", "lossy", "neterr", "noping", "slowhs"):
                     raise InvalidCase(kind)
                 if kind != "healthy" and man.spa_state in busy + (GeckoSpaState.IDLE,):
                     rec["overlap"] = True
@@ -218,12 +253,15 @@ def run_scenario(case, *, recover_bound, mirror_wait=0.0, detect_bound=None, on_
                     b[300] = (b[300] + 1 + case.get("poke", 0)) & 0xFF
                     sim.structure.set_status_block(bytes(b))
                 t_end = W.clock.t + float(dur)
+                if kind == "healthy":
+                    rec["clear"].append([W.clock.t, t_end])
                 while W.clock.t < t_end:
                     await W.sleep(min(0.25, max(0.01, t_end - W.clock.t)))
                     await tick()
             sc.apply("healthy")
             t_h = W.clock.t
             rec["t_h"] = t_h
+            rec["clear"].append([t_h, float("inf")])
             # From here on the network is healthy.  Faults that happened before may still surface for a while (a request started in
             # the outage exhausts its retries, the ping loop notices the gap): the manager may therefore leave CONNECTED again, but
             # within the bound it must be CONNECTED *and stay so* for `stable` virtual seconds, with a facade that mirrors the spa.
